@@ -123,7 +123,7 @@ func (r *Runner) randSlots(max int) []int32 {
 
 func (r *Runner) randSetOpts(name string) SetOpts {
 	o := SetOpts{Name: name, Replicas: int32(r.Rng.Intn(r.Cfg.MaxReplicas + 1)), HistLimit: []int32{0, 1, 2, 10}[r.Rng.Intn(4)]}
-	o.Slots = r.randSlots(8)
+	o.Slots = r.randSlots(r.Cfg.MaxOrd - 1)
 	if r.chance(0.5) {
 		o.Policy = asv1.ParallelPodManagement
 	}
@@ -374,6 +374,9 @@ func (r *Runner) seedStrayRevisions(set string) {
 	if r.chance(0.15) { // migration leftovers: marker label, no selector labels, orphan
 		mk(set+"-markerrev", base, nil, map[string]string{helper.UpgradeToAdvancedStatefulSetAnn: set}, int64(r.Rng.Intn(5)))
 	}
+	if r.chance(0.15) { // mid-upgrade: already marked but still controlled by the built-in set
+		mk(set+"-markedforeignrev", base, OwnerRef("apps/v1", "StatefulSet", set, types.UID("builtin-"+string(s.UID))), map[string]string{helper.UpgradeToAdvancedStatefulSetAnn: set}, int64(r.Rng.Intn(5)))
+	}
 	if r.chance(0.1) { // adopted after an upgrade: marker + selector labels, owned by the set
 		l := map[string]string{helper.UpgradeToAdvancedStatefulSetAnn: set}
 		for k, v := range match {
@@ -472,7 +475,7 @@ func (r *Runner) userEdit() {
 		w.EditSet(set, func(s *asv1.StatefulSet) { s.Spec.Replicas = I32(n) })
 		r.logf("user %s replicas=%d", set, n)
 	case x < 40:
-		sl := r.randSlots(8)
+		sl := r.randSlots(r.Cfg.MaxOrd - 1)
 		w.EditSet(set, func(s *asv1.StatefulSet) { SetSlots(s, sl) })
 		r.logf("user %s slots=%v", set, sl)
 	case x < 55:
